@@ -292,7 +292,7 @@ func genC15(g *Gen) {
 	// full), all of it is set except one bit of word 0, in a seeded word order; completing word 0 then makes one
 	// Compact walk a long run of full words with partial and full words behind it; afterwards the bitmap grows
 	// by several words at once and the holes are probed and closed one by one.
-	for h := 0; h < g.N(60, 2500); h++ {
+	for h := 0; h < g.N(60, 500); h++ {
 		o := offsets[r.Intn(3)]
 		t := newTBGen(g, o)
 		nwords := 8 + r.Intn(23)
